@@ -144,6 +144,9 @@ type BoolVal struct {
 	Op    string // "<", "<=", "==", "!=", ">", ">=", "and", "or", "not", "atom"
 	A, B  Val
 	K     string // for atom
+	// Src is the SSA value of the branch condition this path condition was
+	// decided on (set when the path forked), for audits of its arithmetic.
+	Src ssa.Value
 }
 
 func boolConst(b bool) *BoolVal { return &BoolVal{Const: &b} }
@@ -167,7 +170,7 @@ func (b *BoolVal) Not() *BoolVal {
 	}
 	neg := map[string]string{"<": ">=", "<=": ">", "==": "!=", "!=": "==", ">": "<=", ">=": "<"}
 	if n, ok := neg[b.Op]; ok {
-		return &BoolVal{Op: n, A: b.A, B: b.B}
+		return &BoolVal{Op: n, A: b.A, B: b.B, Src: b.Src}
 	}
 	if b.Op == "not" {
 		return b.A.(*BoolVal)
